@@ -1,5 +1,5 @@
 CONSTANTS MaxWraps = 4
-          LastOnlyFrom = 4
+          LastOnlyFrom = 3
           MaxChain = 3
           MaxCalls = 5
           Wide = FALSE
